@@ -169,6 +169,15 @@ Theorem batch_size_bound_one_item_any_weight : forall w sz max a b out,
 Proof. exact batch_size_bound_pos_l. Qed.
 Print Assumptions batch_size_bound_one_item_any_weight.
 
+(* the split gives up on a remainder ([itemless_remainder]: first_weight = 0) only when NO item of positive weight is left
+   in it: items without weight at the head (profiles without samples, which the bytes sizer does not make disappear) do
+   not stop the isolation of the ones behind them (xexporterhelper.firstProfileSamples returns the samples of the first
+   profile THAT HAS samples) *)
+Theorem isolation_looks_past_weightless : forall w l,
+  first_weight w l = 0 <-> (forall i, In i l -> w i <= 0).
+Proof. exact first_weight_zero_iff. Qed.
+Print Assumptions isolation_looks_past_weightless.
+
 Theorem batch_size_bound_bytes : forall max a b out,
   wf_p w_unit Bytes (rp a) -> wf_opt w_unit Bytes b -> memo_ok w_unit Bytes a -> memo_ok_opt w_unit Bytes b -> 1 <= max ->
   merge_split w_unit Bytes max a b = Some out ->
